@@ -1,6 +1,11 @@
+#![allow(dead_code)]
 pub mod config;
 pub mod ctx;
 pub mod findings;
+pub mod inputs;
+pub mod nodes;
+pub mod ops;
 pub mod panics;
+pub mod snapshot;
 
 pub use ctx::{hash64, Ctx, Failure, Outcome, Tier};
